@@ -65,22 +65,22 @@ kani_unit("air_parsers", "winter-air", "air/src/proof/mod.rs", "kani/air_parsers
       bounded="component lengths fixed: 17/1/8 bytes, 1 main column, no aux; every content byte symbolic", timeout=600),
     H("air_ood_lagrange_without_aux_bounded", ["C06", "C03"], ["OodFrame::read_from", "OodFrame::write_into", "OodFrame::parse", "TraceOodFrame::main_frame", "TraceOodFrame::aux_frame"],
       "read_from + parse::<f64> never panic; the container re-encodes to the same bytes; parse == Ok only if every component has exactly the length its content implies (frame size 2, no trailing bytes) and the frame accessors are in bounds",
-      bounded="component lengths fixed: a Lagrange frame of 1 element although the AIR has no auxiliary segment; every content byte symbolic", timeout=600),
+      bounded="component lengths fixed: a Lagrange frame of 1 element although the AIR has no auxiliary segment; every content byte symbolic", timeout=600, tier="thorough"),
     H("air_ood_lagrange_with_aux_bounded", ["C06", "C03"], ["OodFrame::read_from", "OodFrame::write_into", "OodFrame::parse", "TraceOodFrame::main_frame", "TraceOodFrame::aux_frame"],
       "read_from + parse::<f64> never panic; the container re-encodes to the same bytes; parse == Ok only if every component has exactly the length its content implies (frame size 2, no trailing bytes) and the frame accessors are in bounds",
       bounded="component lengths fixed: Lagrange frame of 1 element, aux width 1; every content byte symbolic", timeout=600),
     H("air_ood_short_rows_bounded", ["C06", "C03"], ["OodFrame::read_from", "OodFrame::write_into", "OodFrame::parse", "TraceOodFrame::main_frame", "TraceOodFrame::aux_frame"],
       "read_from + parse::<f64> never panic; the container re-encodes to the same bytes; parse == Ok only if every component has exactly the length its content implies (frame size 2, no trailing bytes) and the frame accessors are in bounds",
-      bounded="component lengths fixed: trace-state vector of 9 bytes (rows shorter than the main width for any frame-size byte); every content byte symbolic", timeout=600),
+      bounded="component lengths fixed: trace-state vector of 9 bytes (rows shorter than the main width for any frame-size byte); every content byte symbolic", timeout=600, tier="thorough"),
     H("air_ood_lagrange_trailing_bounded", ["C06", "C03"], ["OodFrame::read_from", "OodFrame::write_into", "OodFrame::parse", "TraceOodFrame::main_frame", "TraceOodFrame::aux_frame"],
       "read_from + parse::<f64> never panic; the container re-encodes to the same bytes; parse == Ok only if every component has exactly the length its content implies (frame size 2, no trailing bytes) and the frame accessors are in bounds",
-      bounded="component lengths fixed: Lagrange vector with one byte after the frame; every content byte symbolic", timeout=600),
+      bounded="component lengths fixed: Lagrange vector with one byte after the frame; every content byte symbolic", timeout=600, tier="thorough"),
     H("air_ood_eval_trailing_bounded", ["C06", "C03"], ["OodFrame::read_from", "OodFrame::write_into", "OodFrame::parse", "TraceOodFrame::main_frame", "TraceOodFrame::aux_frame"],
       "read_from + parse::<f64> never panic; the container re-encodes to the same bytes; parse == Ok only if every component has exactly the length its content implies (frame size 2, no trailing bytes) and the frame accessors are in bounds",
-      bounded="component lengths fixed: evaluation vector with one trailing byte; every content byte symbolic", timeout=600),
+      bounded="component lengths fixed: evaluation vector with one trailing byte; every content byte symbolic", timeout=600, tier="thorough"),
     H("air_ood_empty_components_bounded", ["C06", "C03"], ["OodFrame::read_from", "OodFrame::write_into", "OodFrame::parse", "TraceOodFrame::main_frame", "TraceOodFrame::aux_frame"],
       "read_from + parse::<f64> never panic; the container re-encodes to the same bytes; parse == Ok only if every component has exactly the length its content implies (frame size 2, no trailing bytes) and the frame accessors are in bounds",
-      bounded="component lengths fixed: all three vectors empty; every content byte symbolic", timeout=600),
+      bounded="component lengths fixed: all three vectors empty; every content byte symbolic", timeout=600, tier="thorough"),
     H("air_ood_two_columns_bounded", ["C06", "C03"], ["OodFrame::read_from", "OodFrame::write_into", "OodFrame::parse", "TraceOodFrame::main_frame", "TraceOodFrame::aux_frame"],
       "read_from + parse::<f64> never panic; the container re-encodes to the same bytes; parse == Ok only if every component has exactly the length its content implies (frame size 2, no trailing bytes) and the frame accessors are in bounds",
       bounded="component lengths fixed: 2 columns, 2 evaluations; every content byte symbolic", timeout=600),
